@@ -283,11 +283,6 @@ BODYSETS = {
         ("ast_build_incremental_role_links", "src/model/assertion.rs", fnre("build_incremental_role_links")),
     ],
     "internal": [
-        ("add_policy_internal", IA, fnre("add_policy_internal", True), r"impl<T>\s+InternalApi"),
-        ("add_policies_internal", IA, fnre("add_policies_internal", True), r"impl<T>\s+InternalApi"),
-        ("remove_policy_internal", IA, fnre("remove_policy_internal", True), r"impl<T>\s+InternalApi"),
-        ("remove_policies_internal", IA, fnre("remove_policies_internal", True), r"impl<T>\s+InternalApi"),
-        ("remove_filtered_policy_internal", IA, fnre("remove_filtered_policy_internal", True), r"impl<T>\s+InternalApi"),
     ],
     "adapters": [
         ("mem_%s" % n, MA, fnre(n, a)) for n, a in [
